@@ -138,6 +138,41 @@ static void container_scenarios() {
       s->container = true; { Dense_Row* r = mkrow(d); s->params = "dense_copy " + row_params(*r); delete r; }
       s->own = [st, row_owned]() { return st->c ? row_owned(*st->c) : 0L; }; }
   }
+
+  // the remaining Dense_Row construction paths: (y, capacity), (y, sz, capacity), resize(sz, capacity), Dense_Row(const Sparse_Row&)
+  struct DC { int ysize, ycap, sz, cap; int limbs[6]; };
+  static const DC dcs[] = { { 3, 3, 5, 6, {1, 0, 2} }, { 3, 4, 2, 2, {1, 1, 1} }, { 0, 0, 3, 4, {0} }, { 4, 4, 4, 4, {2, 0, 0, 1} }, { 2, 2, 0, 3, {1, 1} } };
+  for (int q = 0; q < 5; ++q) {
+    DC d = dcs[q];
+    auto mky = [d]() { Dense_Row* r = d.ycap ? new Dense_Row(d.ysize, d.ycap) : new Dense_Row(); for (int i = 0; i < d.ysize; ++i) if (d.limbs[i]) (*r)[i] = big(d.limbs[i], 2 + i); return r; };
+    { DSt* st = new DSt;
+      LScn* s = lscn("dense_copy_sized_" + itos(q), [st, mky]() { st->r = mky(); st->c = 0; }, [st, d]() { st->c = new (st->buf) Dense_Row(*st->r, d.sz, d.cap); },
+                     [st]() { delete st->r; if (st->c) st->c->~Dense_Row(); st->r = st->c = 0; }, [st]() { return st->r->OK() && (!st->c || st->c->OK()); }, [st]() { return true; });
+      s->container = true; { Dense_Row* r = mky(); s->params = "dense_copy_sized " + row_params(*r) + " sz=" + itos(d.sz) + " capacity=" + itos(d.cap); delete r; }
+      s->own = [st, row_owned]() { return st->c ? row_owned(*st->c) : 0L; }; }
+    if (d.cap >= d.ysize) { DSt* st = new DSt;
+      LScn* s = lscn("dense_copy_cap_" + itos(q), [st, mky]() { st->r = mky(); st->c = 0; }, [st, d]() { st->c = new (st->buf) Dense_Row(*st->r, d.cap); },
+                     [st]() { delete st->r; if (st->c) st->c->~Dense_Row(); st->r = st->c = 0; }, [st]() { return st->r->OK() && (!st->c || st->c->OK()); }, [st]() { return true; });
+      s->container = true; { Dense_Row* r = mky(); s->params = "dense_copy_cap " + row_params(*r) + " capacity=" + itos(d.cap); delete r; }
+      s->own = [st, row_owned]() { return st->c ? row_owned(*st->c) : 0L; }; }
+    if (d.sz <= d.cap) { DSt* st = new DSt;
+      LScn* s = lscn("dense_resize2_" + itos(q), [st, mky]() { st->r = mky(); }, [st, d]() { st->r->resize(d.sz, d.cap); }, [st]() { delete st->r; st->r = 0; },
+                     [st]() { return st->r->OK(); }, [st]() { Dense_Row z(*st->r); st->r->resize(1); (*st->r)[0] = Coefficient(3); *st->r = z; return st->r->OK() && z.OK(); });
+      s->container = true; { Dense_Row* r = mky(); s->params = "dense_resize2 " + row_params(*r) + " new=" + itos(d.sz) + " capacity=" + itos(d.cap); delete r; }
+      s->own = [st, row_owned]() { return row_owned(*st->r); }; }
+  }
+  struct SD { int size; int idx[4]; int limbs[4]; int n; };
+  static const SD sds[] = { { 5, {0, 2, 4}, {1, 2, 1}, 3 }, { 3, {1}, {1}, 1 }, { 4, {0}, {0}, 0 }, { 6, {0, 1, 2, 5}, {1, 1, 3, 1}, 4 } };
+  struct SSt2 { Sparse_Row* s; Dense_Row* c; __attribute__((aligned(16))) char buf[sizeof(Dense_Row)]; SSt2() : s(0), c(0) {} };
+  for (int q = 0; q < 4; ++q) {
+    SD d = sds[q]; SSt2* st = new SSt2;
+    auto mks = [d]() { Sparse_Row* r = new Sparse_Row(d.size); for (int i = 0; i < d.n; ++i) r->insert(d.idx[i], big(d.limbs[i], 3 + i)); return r; };
+    LScn* s = lscn("dense_from_sparse_" + itos(q), [st, mks]() { st->s = mks(); st->c = 0; }, [st]() { st->c = new (st->buf) Dense_Row(*st->s); },
+                   [st]() { delete st->s; if (st->c) st->c->~Dense_Row(); st->s = 0; st->c = 0; }, [st]() { return st->s->OK() && (!st->c || st->c->OK()); }, [st]() { return true; });
+    s->container = true;
+    { std::ostringstream o; o << "dense_from_sparse rsize=" << d.size << " elems="; for (int i = 0; i < d.n; ++i) o << (i ? "," : "") << d.idx[i] << ":" << d.limbs[i]; if (d.n == 0) o << "-"; s->params = o.str(); }
+    s->own = [st, row_owned]() { return st->c ? row_owned(*st->c) : 0L; };
+  }
   // Swapping_Vector<Dense_Row>::reserve
   struct SSt { Swapping_Vector<Dense_Row>* v; SSt() : v(0) {} };
   static const int svs[][2] = { { 0, 4 }, { 3, 10 }, { 5, 6 } };
@@ -193,6 +228,36 @@ static void row_scenarios() {
   { RSt* st = new RSt;
     lscn("dense_assign", [st, mkdense]() { st->d = mkdense(6); st->s = 0; }, [st]() { Dense_Row y(9); for (int i = 0; i < 9; ++i) y[i] = big(1 + (i == 4), i + 2); *st->d = y; },
          [st]() { delete st->d; st->d = 0; }, [st]() { return st->d->OK(); }); }
+
+  // copies "with a given space dimension" of DENSE expressions / constraints / generators (-> Dense_Row(y, sz, capacity)),
+  // of a constraint taken out of a polyhedron, and the merge of two sorted non-minimized constraint systems in intersection_assign
+  struct ESt { Linear_Expression* e; Constraint* c; Generator* g; C_Polyhedron* x; C_Polyhedron* y; ESt() : e(0), c(0), g(0), x(0), y(0) {} };
+  auto mk_le = [](Representation r) { Linear_Expression t; t += Variable(0) * big(2, 3); t -= 4 * Variable(1); t += Variable(3) * big(1, 7); t += 5; return new Linear_Expression(t, r); };
+  static const int dims[] = { 7, 4, 2 }; static const char* dn[] = { "bigger", "same", "smaller" };
+  for (int rr = 0; rr < 2; ++rr) {
+    Representation rep = rr ? DENSE : SPARSE; std::string rn = rr ? "dense" : "sparse";
+    for (int q = 0; q < 3; ++q) { int dm = dims[q]; ESt* st = new ESt;
+      lscn("le_" + rn + "_copy_dim_" + dn[q], [st, mk_le, rep]() { st->e = mk_le(rep); }, [st, dm]() { Linear_Expression z(*st->e, dm); (void) z; }, [st]() { delete st->e; st->e = 0; },
+           [st]() { return st->e->OK(); }, [st]() { Linear_Expression z(*st->e); z += Variable(1); return z.OK(); }); }
+    { ESt* st = new ESt;
+      lscn("con_" + rn + "_copy_dim", [st, mk_le, rep]() { Linear_Expression* e = mk_le(rep); st->c = new Constraint(Constraint(*e >= 0), rep); delete e; }, [st]() { Constraint z(*st->c, 6); (void) z; },
+           [st]() { delete st->c; st->c = 0; }, [st]() { return st->c->OK(); }); }
+    { ESt* st = new ESt;
+      lscn("con_" + rn + "_copy_dim_repr", [st, mk_le, rep]() { Linear_Expression* e = mk_le(rep); st->c = new Constraint(Constraint(*e > 0), rep); delete e; }, [st, rep]() { Constraint z(*st->c, 6, rep); (void) z; },
+           [st]() { delete st->c; st->c = 0; }, [st]() { return st->c->OK(); }); }
+    { ESt* st = new ESt;
+      lscn("gen_" + rn + "_copy_dim", [st, mk_le, rep]() { Linear_Expression* e = mk_le(rep); st->g = new Generator(point(*e - 5, big(2, 1)), rep); delete e; }, [st]() { Generator z(*st->g, 5); (void) z; },
+           [st]() { delete st->g; st->g = 0; }, [st]() { return st->g->OK(); }); }
+  }
+  { ESt* st = new ESt;
+    lscn("con_from_polyhedron_copy_dim", [st]() { C_Polyhedron ph(3); ph.add_constraint(3 * Variable(0) - 2 * Variable(1) + 5 * Variable(2) <= 7); ph.add_constraint(Variable(0) >= 0);
+                                                   (void) ph.minimized_generators(); st->c = new Constraint(*ph.minimized_constraints().begin()); },
+         [st]() { Constraint z(*st->c, 6); (void) z; }, [st]() { delete st->c; st->c = 0; }, [st]() { return st->c->OK(); }); }
+  { ESt* st = new ESt;
+    lscn("C_Polyhedron.intersection_sorted_merge", [st]() { st->x = new C_Polyhedron(3); st->x->add_constraint(Variable(2) >= 1); st->x->add_constraint(Variable(1) >= 0); st->x->add_constraint(Variable(0) + Variable(1) >= 2);
+                                               st->y = new C_Polyhedron(3); st->y->add_constraint(2 * Variable(2) >= 1); st->y->add_constraint(Variable(1) + 3 * Variable(2) >= 0); st->y->add_constraint(5 * Variable(0) - Variable(2) >= -4); },
+         [st]() { st->x->intersection_assign(*st->y); }, [st]() { delete st->x; delete st->y; st->x = st->y = 0; },
+         [st]() { return st->x->OK() && st->y->OK(); }, [st]() { C_Polyhedron z(*st->x); (void) z.is_empty(); z = *st->y; return z.OK(); }); }
   auto mkbm = [](int rows, int cols) { Bit_Matrix* m = new Bit_Matrix(rows, cols); for (int i = 0; i < rows; ++i) for (int j = i % 3; j < cols; j += 3) (*m)[i].set(j); return m; };
   { RSt* st = new RSt;
     lscn("bitmatrix_copy", [st, mkbm]() { st->bm = mkbm(5, 70); st->bm2 = 0; }, [st]() { st->bm2 = new Bit_Matrix(*st->bm); }, [st]() { delete st->bm; delete st->bm2; st->bm = st->bm2 = 0; },
